@@ -23,6 +23,9 @@ ARCH = {
     'terrapin': dict(kex=['curve25519-sha256'], key=['ssh-ed25519'], enc=['chacha20-poly1305@openssh.com', 'aes128-cbc'], mac=['hmac-sha2-256-etm@openssh.com']),
     'clean': dict(kex=['curve25519-sha256', MS], key=['ssh-ed25519'], enc=['chacha20-poly1305@openssh.com', 'aes128-cbc'], mac=['hmac-sha2-256-etm@openssh.com']),
     'plain': dict(kex=['curve25519-sha256'], key=['ssh-ed25519'], enc=['aes128-ctr'], mac=['hmac-sha2-256']),
+    # a target without any finding (status 0): nothing warns, so nothing *seems* to need discarding - but the JSON renderer still annotates info notes in place
+    'good': dict(kex=['sntrup761x25519-sha512@openssh.com', 'mlkem768x25519-sha256', 'ext-info-s', MS], key=['ssh-ed25519'], enc=['aes256-gcm@openssh.com', 'aes128-ctr'],
+                 mac=['hmac-sha2-256-etm@openssh.com', 'hmac-sha2-512-etm@openssh.com'], no_unknown=True),
     # size channels: the host-key probe / group-exchange probe of these targets is answered (well-formed replies), so the scan writes size notes into its table
     'rsa1024': dict(kex=['curve25519-sha256'], key=['ssh-rsa'], enc=['aes128-ctr'], mac=['hmac-sha2-256'], rsa_bits=1024),
     'rsa4096': dict(kex=['curve25519-sha256'], key=['ssh-rsa'], enc=['aes128-ctr'], mac=['hmac-sha2-256'], rsa_bits=4096),
@@ -210,7 +213,8 @@ class WorkerStep(Harness):
             M.ssh2_kexdb.SSH2_KexDB.DB_PER_THREAD.clear()
             M.ssh1_kexdb.SSH1_KexDB.DB_PER_THREAD.clear()
         a = dict(ARCH[arch])
-        a['enc'] = list(a['enc']) + [unk]
+        if not a.get('no_unknown'):
+            a['enc'] = list(a['enc']) + [unk]
         pk = AE.frame(AE.kexinit_payload(a['kex'], a['key'], a['enc'], a['mac']))
         net = AE.FakeNet([AE.Conn([BANNER, pk])] + (probe_conns(a, pk) if ('rsa_bits' in a or 'gex_bits' in a) else []), default_end='close')
         aconf = M.auditconf.AuditConf('', 22)
@@ -250,7 +254,7 @@ class WorkerStep(Harness):
         left = tid in M.ssh2_kexdb.SSH2_KexDB.DB_PER_THREAD or tid in M.ssh1_kexdb.SSH1_KexDB.DB_PER_THREAD
         M.ssh2_kexdb.SSH2_KexDB.DB_PER_THREAD.clear()
         M.ssh1_kexdb.SSH1_KexDB.DB_PER_THREAD.clear()
-        return {'alone': alone, 'second': second, 'first_ok': not isinstance(first, Exc), 'table_left_behind': left}
+        return {'alone': alone, 'second': second, 'first_ok': not isinstance(first, Exc), 'first_ret': None if isinstance(first, Exc) else first[0], 'table_left_behind': left}
 
     def check(self, inp, obs):
         a, b = obs['alone'], obs['second']
@@ -264,6 +268,8 @@ class WorkerStep(Harness):
             yield 'same-report-as-single-target-run', a[1] == b[1]
         yield 'no-table-left-for-the-finished-task', not obs['table_left_behind']
         yield 'measured-size-is-in-the-report(probe-reached)', a[3] and b[3]
+        if self.first == 'good':
+            yield 'status-0-archetype-is-rated-good(reachability)', obs['first_ret'] == 0
 
     def classify(self, inp, obs, label):
         if label in ('same-report-as-single-target-run', 'same-json-as-single-target-run', 'same-status-as-single-target-run', 'no-table-left-for-the-finished-task'):
@@ -334,7 +340,7 @@ def tasks(tier):
         for second in ('terrapin', 'clean', 'plain'):
             for json in (False, True):
                 T.append(WorkerStep(first, second, json))
-    for first, second in [('rsa1024', 'rsa4096'), ('rsa4096', 'rsa1024'), ('gex1024', 'gex4096'), ('gex4096', 'gex1024'), ('rsa1024', 'gex1024'), ('gex1024', 'plain')]:
+    for first, second in [('good', 'good'), ('good', 'plain'), ('rsa1024', 'rsa4096'), ('rsa4096', 'rsa1024'), ('gex1024', 'gex4096'), ('gex4096', 'gex1024'), ('rsa1024', 'gex1024'), ('gex1024', 'plain')]:
         for json in (False, True):
             T.append(WorkerStep(first, second, json))
     if tier != 'quick':
